@@ -126,6 +126,9 @@ type Op struct {
 	Loc      []int       `json:",omitempty"`
 	Sel      [][]int     `json:",omitempty"`
 	Empty    bool        `json:",omitempty"` // selection with an empty dimension (separate class)
+	// Reuse = k+1: this load passes the very same [][]int object that load k passed (a caller keeping one
+	// H5Ref.Slice for several loads, as ow-sim's GetReference does); Sel repeats k's generated values
+	Reuse int `json:",omitempty"`
 }
 
 type Case struct{ Ops []Op }
@@ -238,7 +241,26 @@ func gen(t *rapid.T) Case {
 			op.Src = vg.Draw(t, op.Shape, 6, "src")
 			op.SrcC = rapid.Bool().Draw(t, "srcC")
 		case "load":
-			if rapid.IntRange(0, 3).Draw(t, "whole") > 0 {
+			var cands []int
+			for k, o := range c.Ops {
+				if o.Kind != "load" || o.Sel == nil || o.Empty || len(o.Sel) != len(cur.shape) {
+					continue
+				}
+				ok := true
+				for d, s := range o.Sel {
+					if s != nil && s[0] >= cur.shape[d] {
+						ok = false
+					}
+				}
+				if ok {
+					cands = append(cands, k)
+				}
+			}
+			if len(cands) > 0 && rapid.IntRange(0, 2).Draw(t, "reuse") == 0 {
+				k := cands[rapid.IntRange(0, len(cands)-1).Draw(t, "reuseOf")]
+				op.Reuse = k + 1
+				op.Sel = copySel(c.Ops[k].Sel)
+			} else if rapid.IntRange(0, 3).Draw(t, "whole") > 0 {
 				op.Sel = make([][]int, len(cur.shape))
 				any := false
 				for d, nd := range cur.shape {
@@ -263,6 +285,19 @@ func gen(t *rapid.T) Case {
 		c.Ops = append(c.Ops, op)
 	}
 	return c
+}
+
+func copySel(sel [][]int) [][]int {
+	if sel == nil {
+		return nil
+	}
+	out := make([][]int, len(sel))
+	for d, s := range sel {
+		if s != nil {
+			out[d] = append([]int(nil), s...)
+		}
+	}
+	return out
 }
 
 func val(typ string, k int) float64 {
@@ -388,6 +423,7 @@ func check(c Case) (r pbt.Result) {
 		return true
 	}
 
+	passed := map[int][][]int{} // the selection objects handed to Load, by op index
 	for si, op := range c.Ops {
 		f := files[op.File]
 		fn := names[op.File]
@@ -503,7 +539,19 @@ func check(c Case) (r pbt.Result) {
 				return
 			}
 		case "load":
-			lv, err := rf.load(fn, op.Path, op.Sel)
+			// the object handed to Load is never op.Sel itself (the expectation below is computed from op.Sel)
+			sel := copySel(op.Sel)
+			if op.Reuse > 0 && passed[op.Reuse-1] != nil {
+				sel = passed[op.Reuse-1]
+				r.Label("load:reused-selection-object")
+				for d, s := range op.Sel {
+					if s != nil && s[1] > cur.shape[d] {
+						r.Label("load:reused-selection-object,clipped")
+					}
+				}
+			}
+			passed[si] = sel
+			lv, err := rf.load(fn, op.Path, sel)
 			if op.Empty {
 				r.Label("empty-selection(separate class)")
 				break
